@@ -64,3 +64,41 @@ def run_driver(ctx, driver, args=(), std='c++17', link_lib=True, extra=(), timeo
     except subprocess.TimeoutExpired:
         return True, '$ %s %s\nTIMEOUT after %ss (hang reproduced)' % (driver, ' '.join(map(str, args)), timeout)
     return (rc != 0), '$ %s %s\n%s\nexit=%d' % (driver, ' '.join(map(str, args)), out[-3000:], rc)
+
+
+def fiber_lib(ctx, coro=False):
+    """the REAL library of ctx.repo built with its own FIBER fault backend (cmake + ninja, ~15 s), cached per run"""
+    tag = 'fiberlib' + ('_coro' if coro else '')
+    d = os.path.join(ctx.workdir, tag)
+    lib = os.path.join(d, 'src', 'libyaclib.a')
+    if os.path.exists(lib):
+        return d, ''
+    cmd = ['cmake', '-G', 'Ninja', '-S', ctx.repo, '-B', d, '-DCMAKE_BUILD_TYPE=RelWithDebInfo', '-DYACLIB_FAULT=FIBER', '-DYACLIB_TEST=OFF']
+    if coro:
+        cmd += ['-DYACLIB_CXX_STANDARD=20', '-DYACLIB_FLAGS=CORO']
+    rc, out = _sh(cmd, timeout=300)
+    if rc == 0:
+        rc, out2 = _sh(['cmake', '--build', d, '-j', '12'], timeout=900)
+        out += out2
+    if rc != 0 or not os.path.exists(lib):
+        return None, 'the FIBER build of the tree under check failed:\n' + out[-2500:]
+    return d, ''
+
+
+def run_fiber_driver(ctx, driver, args=(), coro=False, timeout=120):
+    d, log = fiber_lib(ctx, coro)
+    if d is None:
+        return None, log
+    src = os.path.join(ROOT, 'replay', driver)
+    exe = os.path.join(ctx.workdir, driver.replace('.cpp', '') + '_fiber')
+    if not os.path.exists(exe):
+        cmd = ['g++', '-std=' + ('c++20' if coro else 'c++17'), '-O1', '-g', '-I', os.path.join(ctx.repo, 'include'), '-I', os.path.join(ctx.repo, 'src'),
+               '-I', os.path.join(d, 'include'), src, os.path.join(d, 'src', 'libyaclib.a'), '-lpthread', '-o', exe]
+        rc, out = _sh(cmd)
+        if rc != 0:
+            return None, 'fiber replay driver does not compile against the tree under check:\n' + out[-2000:]
+    try:
+        rc, out = _sh([exe] + [str(a) for a in args], timeout=timeout)
+    except subprocess.TimeoutExpired:
+        return True, '$ %s %s\nTIMEOUT after %ss (hang reproduced)' % (driver, ' '.join(map(str, args)), timeout)
+    return (rc != 0), '$ %s %s\n%s\nexit=%d' % (driver, ' '.join(map(str, args)), out[-3000:], rc)
